@@ -3,6 +3,7 @@ package main
 // C16: bytecode generators (tiny assembler + grammar).
 
 import (
+	"fmt"
 	"math/big"
 	"math/rand"
 
@@ -474,4 +475,257 @@ func (g *c16Gen) journalWitness(failing, ok common.Address, term int) []byte {
 
 func (g *c16Gen) callStmt2(a *asm, to common.Address, value uint64) {
 	a.push(0).push(0).push(0).push(0).push(value).pushAddr(to).push(50000).op(opCALL, opPOP)
+}
+
+// ---------------------------------------------------------------------------------------------------------------
+// Families that drive the interpreter's index arithmetic to its boundaries (no-crash oracle O1).
+
+// jumpTail: code that EXECUTES a jump — the jump-destination bitmap is built lazily, inside the first
+// JUMP / taken JUMPI with an in-range destination (Interpreter.Run -> opJump -> destinations.has -> codeBitmap) —
+// and that ends with PUSHn followed by t <= n immediate bytes, with total length = res (mod 8).
+//   variant 0 JUMP to a JUMPDEST, then STOP          3 jump into the immediate bytes of the tail (a 0x5b there)
+//   variant 1 taken JUMPI, then fall through the      4 jump onto the trailing PUSHn opcode itself
+//             padding into the trailing PUSHn          5 jump to len(code) (out of range: nothing is analysed)
+//   variant 2 JUMPI not taken, then JUMP, fall through  6 JUMP, then fall through into the (truncated) trailing PUSHn
+func (g *c16Gen) jumpTail(n, t, res, variant int) []byte {
+	return g.jumpTailInto(&asm{}, n, t, res, variant)
+}
+
+// jumpTailInto appends the construct to a (destinations are absolute positions, 2-byte immediates).
+func (g *c16Gen) jumpTailInto(a *asm, n, t, res, variant int) []byte {
+	if t > n {
+		t = n
+	}
+	var holes []int
+	switch variant {
+	case 1:
+		a.op(opPUSH1, 1)
+		holes = append(holes, a.push2hole())
+		a.op(opJUMPI)
+	case 2:
+		a.op(opPUSH1, 0)
+		holes = append(holes, a.push2hole())
+		a.op(opJUMPI)
+		holes = append(holes, a.push2hole())
+		a.op(opJUMP)
+	default:
+		holes = append(holes, a.push2hole())
+		a.op(opJUMP)
+	}
+	land := a.pc()
+	a.op(opJUMPDEST)
+	fall := variant == 1 || variant == 6 || variant == 2
+	if !fall {
+		a.op(opSTOP)
+	}
+	tailLen := 1 + t
+	pad := ((res-(a.pc()+tailLen))%8 + 8) % 8
+	for i := 0; i < pad; i++ {
+		a.op(opJUMPDEST)
+	}
+	pushAt := a.pc()
+	a.op(byte(opPUSH1 + n - 1))
+	for i := 0; i < t; i++ {
+		a.op(opJUMPDEST)
+	}
+	dest := land
+	switch variant {
+	case 3:
+		if t > 0 {
+			dest = pushAt + 1 + g.r.Intn(t)
+		} else {
+			dest = pushAt
+		}
+	case 4:
+		dest = pushAt
+	case 5:
+		dest = a.pc()
+	}
+	for _, h := range holes {
+		a.patch(h, dest)
+	}
+	g.count(fmt.Sprintf("gen:jump-tail/variant=%d", variant))
+	g.count(fmt.Sprintf("gen:jump-tail/len-mod-8=%d", len(a.b)%8))
+	if n == 32 && t == 0 && len(a.b)%8 == 0 {
+		g.count("gen:jump-tail/push32-last-byte-len-multiple-of-8")
+	}
+	return a.b
+}
+
+// c16Edges: offsets / sizes around the end of a data area of length n, and around the integer widths
+func c16Edges(n int) []*big.Int {
+	p2 := func(k uint) *big.Int { return new(big.Int).Lsh(big.NewInt(1), k) }
+	sub := func(v *big.Int, k int64) *big.Int { return new(big.Int).Sub(v, big.NewInt(k)) }
+	out := []*big.Int{}
+	for _, v := range []int{0, 1, n - 33, n - 32, n - 31, n - 1, n, n + 1, n + 31, n + 32} {
+		if v >= 0 {
+			out = append(out, big.NewInt(int64(v)))
+		}
+	}
+	return append(out, sub(p2(63), 1), p2(63), sub(p2(64), 32), sub(p2(64), 1), p2(64), new(big.Int).Add(p2(64), big.NewInt(int64(n))), p2(255), sub(p2(256), 1))
+}
+
+func (g *c16Gen) pick(v []*big.Int) *big.Int { return v[g.r.Intn(len(v))] }
+
+// boundary: one program per sub-family; returns the code, the call data and (for the return-data family) the code of
+// the callee in slot 1.
+func (g *c16Gen) boundary(which int) (code, input, callee []byte, kind string) {
+	r := g.r
+	a := &asm{}
+	small := func() *big.Int { return big.NewInt(int64([]int{0, 1, 31, 32, 33, 64}[r.Intn(6)])) }
+	switch which {
+	case 0: // CALLDATALOAD around the end of the call data
+		kind = "calldataload-edges"
+		n := []int{0, 1, 31, 32, 33, 64, r.Intn(100)}[r.Intn(7)]
+		input = make([]byte, n)
+		r.Read(input)
+		for i := 0; i < 6; i++ {
+			a.pushBig(g.pick(c16Edges(n))).op(0x35 /*CALLDATALOAD*/, opPOP)
+		}
+		a.pushBig(g.pick(c16Edges(n))).op(0x35).push(0).op(opMSTORE).push(32).push(0).op(opRETURN)
+	case 1: // CALLDATACOPY / CODECOPY / EXTCODECOPY: source range straddling the end of the data; length 0 at huge offsets
+		kind = "copy-edges"
+		n := []int{0, 1, 32, 33, r.Intn(100)}[r.Intn(5)]
+		input = make([]byte, n)
+		r.Read(input)
+		for i := 0; i < 4; i++ {
+			op := []byte{opCALLDATACOPY, opCODECOPY, opEXTCODECOPY}[r.Intn(3)]
+			srcLen := n
+			if op != opCALLDATACOPY {
+				srcLen = 60 // about the size of this code / of the genesis contracts
+			}
+			var length, memOff *big.Int
+			if r.Intn(4) == 0 {
+				length, memOff = new(big.Int), g.pick(c16Edges(srcLen)) // nothing copied: no expansion whatever the offsets
+			} else {
+				length, memOff = g.pick([]*big.Int{big.NewInt(1), big.NewInt(32), big.NewInt(int64(srcLen)), big.NewInt(int64(srcLen + 1)), big.NewInt(int64(r.Intn(70)))}), small()
+			}
+			a.pushBig(length).pushBig(g.pick(c16Edges(srcLen))).pushBig(memOff)
+			if op == opEXTCODECOPY {
+				a.pushAddr([]common.Address{g.w.gOK, g.w.slots[0], g.w.eoa, g.w.empties[0], common.BytesToAddress([]byte{4})}[r.Intn(5)])
+			}
+			a.op(op)
+		}
+		a.op(0x59 /*MSIZE*/).push(0).op(opMSTORE).push(64).push(0).op(opRETURN)
+	case 2: // RETURNDATACOPY around the end of the return data (errReturnDataOutOfBounds / 64-bit overflow of offset+length)
+		kind = "returndatacopy-edges"
+		k := []int{0, 1, 32, 33, r.Intn(70)}[r.Intn(5)]
+		callee = (&asm{}).push(uint64(k)).push(0).op(opRETURN).b
+		switch r.Intn(4) {
+		case 0: // no call before: the return data buffer is nil
+			k = 0
+		case 1: // return data of the identity precompile
+			a.push(uint64(k)).push(0).push(uint64(k)).push(0).push(0).pushAddr(common.BytesToAddress([]byte{4})).push(50000).op(opCALL, opPOP)
+		case 2: // a REVERTing callee also leaves return data
+			callee = (&asm{}).push(uint64(k)).push(0).op(opREVERT).b
+			a.push(0).push(0).push(0).push(0).push(0).pushAddr(g.w.slots[1]).push(50000).op(opCALL, opPOP)
+		default:
+			a.push(0).push(0).push(0).push(0).push(0).pushAddr(g.w.slots[1]).push(50000).op(opCALL, opPOP)
+		}
+		p2 := func(n uint) *big.Int { return new(big.Int).Lsh(big.NewInt(1), n) }
+		K := int64(k)
+		type ol struct{ off, n *big.Int }
+		cands := []ol{{big.NewInt(0), big.NewInt(K)}, {big.NewInt(0), big.NewInt(K + 1)}, {big.NewInt(K), big.NewInt(0)}, {big.NewInt(K + 1), big.NewInt(0)},
+			{big.NewInt(K - 1), big.NewInt(1)}, {big.NewInt(K - 1), big.NewInt(2)}, {big.NewInt(K / 2), big.NewInt(K - K/2)},
+			{new(big.Int).Sub(p2(64), big.NewInt(1)), big.NewInt(1)}, {new(big.Int).Sub(p2(64), big.NewInt(1)), big.NewInt(0)}, {p2(64), big.NewInt(0)},
+			{big.NewInt(1), new(big.Int).Sub(p2(64), big.NewInt(1))}, {new(big.Int).Sub(p2(256), big.NewInt(1)), big.NewInt(1)}, {new(big.Int).Sub(p2(256), big.NewInt(1)), big.NewInt(0)},
+			{new(big.Int).Sub(p2(64), big.NewInt(K)), big.NewInt(K)}}
+		c := cands[r.Intn(len(cands))]
+		if c.off.Sign() < 0 {
+			c.off = big.NewInt(0)
+		}
+		a.op(opRETDATASIZE, opPOP)
+		a.pushBig(c.n).pushBig(c.off).pushBig(small()).op(opRETDATACOPY)
+		a.op(0x59).push(0).op(opMSTORE).push(64).push(0).op(opRETURN)
+	case 3: // MSTORE8 / MLOAD / MSTORE / SHA3 at the word boundaries of the current memory size
+		kind = "memory-word-edges"
+		if r.Intn(2) == 0 {
+			a.push(0xaa).push(0).op(opMSTORE) // msize 32
+		}
+		for i := 0; i < 8; i++ {
+			off := big.NewInt(int64([]int{0, 1, 30, 31, 32, 33, 62, 63, 64, 65, 95, 96}[r.Intn(12)]))
+			switch r.Intn(6) {
+			case 0:
+				a.push(0x1ff).pushBig(off).op(opMSTORE8)
+			case 1:
+				a.pushBig(off).op(opMLOAD, opPOP)
+			case 2:
+				a.push(0x1234).pushBig(off).op(opMSTORE)
+			case 3: // SHA3: size 0 (any offset, nothing read), size 1 at the edge, on empty memory when first
+				a.pushBig([]*big.Int{new(big.Int), big.NewInt(1), big.NewInt(32), big.NewInt(33)}[r.Intn(4)]).pushBig(off).op(opSHA3, opPOP)
+			case 4:
+				a.push(0).pushBig(g.pick(c16Edges(64))).op(opSHA3, opPOP) // size 0 at any offset
+			default:
+				a.op(0x59, opPOP)
+			}
+		}
+		a.op(0x59).push(0).op(opMSTORE).push(32).push(0).op(opRETURN)
+	case 4: // DUPn / SWAPn with exactly n-1 / n / n+1 items
+		kind = "dup-swap-depth"
+		n := 1 + r.Intn(16)
+		swap := r.Intn(2) == 0
+		need := n
+		if swap {
+			need = n + 1
+		}
+		have := need - 1 + r.Intn(2) // one short (stack underflow) or exactly enough
+		for i := 0; i < have; i++ {
+			a.push(uint64(i + 1))
+		}
+		if swap {
+			a.op(byte(opSWAP1 + n - 1))
+		} else {
+			a.op(byte(opDUP1 + n - 1))
+		}
+		a.push(0).op(opMSTORE).push(32).push(0).op(opRETURN)
+	case 5: // the stack limit: 1023 / 1024 items, then DUP / SWAP16 / PUSH / a zero-push opcode
+		kind = "stack-limit"
+		h := 1023 + r.Intn(2)
+		for i := 0; i < h; i++ {
+			a.op(0x58 /*PC*/)
+		}
+		switch r.Intn(5) {
+		case 0:
+			a.op(byte(opDUP1 + r.Intn(16)))
+		case 1:
+			a.op(byte(opSWAP1 + r.Intn(16)))
+		case 2:
+			a.op(opPUSH1+31, 1)
+		case 3:
+			a.op(opADD) // shrinks: fine at the limit
+		default:
+			a.op(0x58)
+		}
+		a.op(opSTOP)
+	case 6: // BYTE / SIGNEXTEND index operands at 31 / 32 / the integer widths
+		kind = "byte-signextend-edges"
+		p2 := func(n uint) *big.Int { return new(big.Int).Lsh(big.NewInt(1), n) }
+		idx := []*big.Int{big.NewInt(0), big.NewInt(1), big.NewInt(30), big.NewInt(31), big.NewInt(32), big.NewInt(33), p2(31), p2(32), p2(63), p2(64),
+			new(big.Int).Add(p2(64), big.NewInt(31)), new(big.Int).Add(p2(64), big.NewInt(3)), p2(255), new(big.Int).Sub(p2(256), big.NewInt(1))}
+		vals := []*big.Int{big.NewInt(0x7f), big.NewInt(0x80), big.NewInt(0xff), big.NewInt(0x8000), p2(255), new(big.Int).Sub(p2(256), big.NewInt(1)), new(big.Int).Sub(p2(255), big.NewInt(1))}
+		for i := 0; i < 5; i++ {
+			a.pushBig(g.pick(vals)).pushBig(g.pick(idx)).op([]byte{0x1a /*BYTE*/, 0x0b /*SIGNEXTEND*/}[r.Intn(2)])
+			a.push(uint64(32 * i)).op(opMSTORE)
+		}
+		a.push(160).push(0).op(opRETURN)
+	default: // a PUSHn executed at the very end of the code (immediate truncated by the end): no jump, straight line
+		kind = "push-truncated-at-end"
+		n := 1 + r.Intn(32)
+		t := r.Intn(n + 1)
+		a.op(c16PadJumpdests(r.Intn(8))...)
+		a.op(byte(opPUSH1 + n - 1))
+		for i := 0; i < t; i++ {
+			a.op(0xee)
+		}
+	}
+	g.count("gen:boundary=" + kind)
+	return a.b, input, callee, kind
+}
+
+func c16PadJumpdests(n int) []byte {
+	b := make([]byte, n)
+	for i := range b {
+		b[i] = opJUMPDEST
+	}
+	return b
 }
